@@ -21,9 +21,10 @@ pub fn warn_code(k: MarkerWarningKind) -> char {
 
 fn err_line(e: &Pep508Error, input: &str) -> String {
     // rendering must not panic; the span must start on a char boundary inside the input or at its end
-    let disp = std::panic::catch_unwind(std::panic::AssertUnwindSafe(|| e.to_string())).is_ok();
+    let rendered = std::panic::catch_unwind(std::panic::AssertUnwindSafe(|| e.to_string())).ok();
+    let disp = rendered.is_some();
     let boundary = e.start <= input.len() && input.is_char_boundary(e.start);
-    format!("err {} {} disp={} boundary={}", e.start, e.len, disp as u8, boundary as u8)
+    format!("err {} {} disp={} boundary={}{}", e.start, e.len, disp as u8, boundary as u8, ul_field(rendered))
 }
 
 /// worker side: `m <hex>` parse a marker tree, `e <hex>` a marker expression
@@ -171,6 +172,10 @@ pub fn parse_case(out: &mut Out, w: &mut Worker, prop: &str, mode: &str, text: &
         }
         if ans.contains("boundary=0") {
             out.oracle_fail("C06", "the error span does not start on a char boundary inside the input", input.clone());
+        }
+        // the underline `Display` prints, against the Lean model of its slicing
+        if prop == "C06" {
+            if let Some((line, ul)) = errdisp_case(text, &ans, 1) { out.evaluations += 1; out.case(line, ul); out.stat("errdisp.cases"); }
         }
     } else {
         out.stat("parse.ok");
